@@ -506,7 +506,11 @@ VSwrite(int32       vkey,  /* IN: vdata key */
     if (interlace != NO_INTERLACE && interlace != FULL_INTERLACE)
         HGOTO_ERROR(DFE_ARGS, FAIL);
 
-    hdf_size    = (int)w->ivsize; /* as stored in HDF file */
+    hdf_size = (int)w->ivsize; /* as stored in HDF file */
+
+    /* the byte count of the request must fit the 32-bit lengths used throughout */
+    if (hdf_size > 0 && nelt > INT32_MAX / hdf_size)
+        HGOTO_ERROR(DFE_RANGE, FAIL);
     total_bytes = hdf_size * nelt;
 
     /* make sure we have a valid AID */
